@@ -6,15 +6,6 @@ import Kopf.Lemmas.C03_Loop
 namespace Kopf.C03
 open Kopf Kopf.C02
 
-/-- well-formed environment: selected handlers are registered ones; latency ≥ 0; keepalive cap > 0 -/
-structure WF (env : Env) : Prop where
-  sub : ∀ c, ∀ i ∈ env.sel c, i ∈ env.owned
-  lat : 0 ≤ env.lat
-  cap : 0 < env.cap
-
-/-- "handlers stop failing": from now on every invocation yields a final outcome -/
-def AllFinal (env : Env) : Prop := ∀ i n, (env.exec i n).final = true
-
 /-! ### after a pass with a handler reason, no stored record carries a superseded purpose -/
 
 theorem noExtras_of_extras_false {cfg : Cfg} {P : Store} {now : Tick}
@@ -61,10 +52,6 @@ theorem noExtras_after (cfg : Cfg) (P : Store) (now now1 : Tick) (exec : Id → 
     exact noExtras_preserved cfg P now now1 exec hsub (noExtras_of_extras_false hex')
 
 /-! ### the components of the ranking function, over a handler list -/
-
-def Uv (l : List Id) (P : Store) : Nat := (l.filter (unfin P)).length
-def Av (l : List Id) (P : Store) (t : Tick) : Nat := if l.any (awakeP P t) then 0 else 1
-def Cv (cap : Tick) (l : List Id) (P : Store) (t : Tick) : Nat := (l.map (slack cap P t)).sum
 
 theorem Av_le_one (l : List Id) (P : Store) (t : Tick) : Av l P t ≤ 1 := by
   unfold Av; split <;> omega
@@ -121,98 +108,141 @@ theorem open_C_le (cap now' : Tick) (hle : now ≤ now') :
 
 end OpenStep
 
-/-! ### the ranking function -/
+/-! ### the ranking function of the handling proper -/
 
 variable {E : Type} [DecidableEq E]
 
-def isHandler (s : State E) : Bool := handlerReasons.contains (C14.reasonStr (causeOf s).reason)
+theorem extrasOf_eq (env : Env) (s : State E) : extrasOf env s = extras (cfgOf env s) s.P s.now := rfl
 
-/-- Upper bound on the number of further turns of the loop:
-    2·(selected handlers still unfinished) + (1 if none of them is due now) + (1 if superseded records
-    are still to be re-purposed) + 1 (the echo of the closing PATCH) + the keepalive rounds of delays
-    longer than the cap. A function of the state only. -/
-def bound (env : Env) (s : State E) : Nat :=
-  if !s.pending then 0
-  else if !env.prematch then 1
-  else if !isHandler s then 1
-  else 2 * Uv (env.sel (causeOf s)) s.P + Av (env.sel (causeOf s)) s.P s.now
-       + (if extras (cfgOf env s) s.P s.now then 1 else 0) + 1
-       + Cv env.cap (env.sel (causeOf s)) s.P s.now
+/-- the bound of a state that is not gone and needs no finalizer adjustment -/
+def hbound (env : Env) (s : State E) : Nat := if !s.pending then 0 else core env s
 
-def changedOf (env : Env) (s : State E) : Bool :=
-  (ids env).any (fun i => (pass env s).P' i != s.P i) ||
-    decide ((if (pass env s).closed then some s.ess else s.base) ≠ s.base)
-
-/-- the state after a turn that processed an event -/
-def nextState (env : Env) (s : State E) (now' : Tick) (pend : Bool) (w : Nat) : State E :=
-  { s with P := (pass env s).P', base := (if (pass env s).closed then some s.ess else s.base),
-           fullyHandled := (s.fullyHandled || (pass env s).closed), now := now', pending := pend, writes := w }
-
-theorem loopStep_cases (env : Env) (s : State E) (hp : s.pending = true) (hpm : env.prematch = true) :
-    (changedOf env s = true ∧ loopStep env s = nextState env s (s.now + env.lat) true (s.writes + 1)) ∨
+theorem handleTurn_cases (env : Env) (s : State E) :
+    (changedOf env s = true ∧ handleTurn env s = nextState env s (s.now + env.lat) true (s.writes + 1)) ∨
     (∃ d, changedOf env s = false ∧ minDelay (pass env s).delays = some d ∧
-      loopStep env s = nextState env s (s.now + (if d > env.cap then env.cap else d) + env.lat) true (s.writes + 1)) ∨
+      handleTurn env s = nextState env s (s.now + (if d > env.cap then env.cap else d) + env.lat) true (s.writes + 1)) ∨
     (changedOf env s = false ∧ minDelay (pass env s).delays = none ∧
-      loopStep env s = nextState env s s.now false s.writes) := by
-  unfold nextState
+      handleTurn env s = nextState env s s.now false s.writes) := by
   by_cases hch : changedOf env s = true
   · left
-    refine ⟨hch, ?_⟩
-    unfold changedOf at hch
-    unfold loopStep
-    simp only [hp, hpm, Bool.not_true, Bool.false_eq_true, if_false]
-    rw [if_pos hch]
+    exact ⟨hch, by unfold handleTurn; rw [if_pos hch]⟩
   · have hch' : changedOf env s = false := by simpa using hch
     right
-    unfold changedOf at hch
     cases hm : minDelay (pass env s).delays with
     | some d =>
       left
       refine ⟨d, hch', rfl, ?_⟩
-      unfold loopStep
-      simp only [hp, hpm, Bool.not_true, Bool.false_eq_true, if_false]
+      unfold handleTurn
       rw [if_neg hch]
       simp only [hm]
     | none =>
       right
       refine ⟨hch', rfl, ?_⟩
-      unfold loopStep
-      simp only [hp, hpm, Bool.not_true, Bool.false_eq_true, if_false]
+      unfold handleTurn
       rw [if_neg hch]
       simp only [hm]
 
-theorem closed_next_not_handler (s' : State E) (hb : s'.base = some s'.ess) (hf : s'.fullyHandled = true) :
-    isHandler s' = false := by
+/-- a purge of records that are not there changes nothing -/
+theorem noop_pass_id {cfg : Cfg} {P : Store} {now now1 : Tick} {exec : Id → Nat → Outcome}
+    (hr : handlerReasons.contains cfg.reason = false) (hn : ∀ i ∈ cfg.owned, P i = none) (j : Id) :
+    (cycle cfg P now now1 exec).P' j = P j := by
+  rw [cycle_not_handler_reason cfg P now now1 exec hr]
+  simp only
+  split
+  · have hfs : ∀ k, fromStorage P cfg.owned k = none := by
+      intro k
+      unfold fromStorage
+      by_cases hk : k ∈ cfg.owned
+      · simp [hk, hn k hk]
+      · simp [hk]
+    unfold purge
+    by_cases hj : j ∈ cfg.owned
+    · simp [hj, hn j hj]
+    · have h2 : (cfg.owned.any fun k => k == j && (fromStorage P cfg.owned k).isSome) = false := by
+        rw [List.any_eq_false]; intro k _; simp [hfs k]
+      have h3 : allSubrefs (fromStorage P cfg.owned) cfg.owned = [] := by
+        unfold allSubrefs
+        simp [hfs]
+      simp [hj, h2, h3]
+  · rfl
+
+/-- after an informational pass no owned record is left, if the cause is the no-op; otherwise nothing moved -/
+theorem info_pass_twice {cfg : Cfg} {P : Store} {now now1 now' now1' : Tick} {exec : Id → Nat → Outcome}
+    (hr : handlerReasons.contains cfg.reason = false) (j : Id) :
+    (cycle cfg (cycle cfg P now now1 exec).P' now' now1' exec).P' j = (cycle cfg P now now1 exec).P' j := by
+  by_cases hn : (cfg.reason == "noop") = true
+  · apply noop_pass_id hr
+    intro i hi
+    rw [cycle_not_handler_reason cfg P now now1 exec hr]
+    simp [hn, purge, hi]
+  · have hn' : (cfg.reason == "noop") = false := by simpa using hn
+    rw [cycle_not_handler_reason_keeps cfg _ now' now1' exec hr hn']
+
+theorem closed_next_not_handler (s' : State E) (hm : s'.marked = false) (hb : s'.base = some s'.ess)
+    (hf : s'.fullyHandled = true) : isHandler s' = false := by
   unfold isHandler causeOf
-  simp [hb, hf, C05.detect, C05.detectReason, C14.reasonStr]
+  simp [hm, hb, hf, C05.detect, C05.detectReason, C14.reasonStr]
   decide
 
-theorem bound_le_one_of_closed (env : Env) (s' : State E) (hb : s'.base = some s'.ess) (hf : s'.fullyHandled = true) :
-    bound env s' ≤ 1 := by
-  unfold bound
-  rw [closed_next_not_handler s' hb hf]
+theorem changedOf_false_of_norec (env : Env) (s' : State E) (hh : isHandler s' = false)
+    (hn : ∀ i ∈ env.owned, s'.P i = none) : changedOf env s' = false := by
+  have hr : handlerReasons.contains (cfgOf env s').reason = false := hh
+  have hid : ∀ j, (pass env s').P' j = s'.P j := fun j => noop_pass_id hr hn j
+  have hc : (pass env s').closed = false := (cycle_not_handler_reason_invoked _ _ _ _ _ hr).2
+  unfold changedOf
+  simp [hid, hc]
+
+theorem hbound_le_one_of_closed (env : Env) (s' : State E) (hm : s'.marked = false)
+    (hb : s'.base = some s'.ess) (hf : s'.fullyHandled = true) (hn : ∀ i ∈ env.owned, s'.P i = none) :
+    hbound env s' ≤ 1 := by
+  have hh := closed_next_not_handler s' hm hb hf
+  unfold hbound core
+  rw [hh, changedOf_false_of_norec env s' hh hn]
   split
   · omega
   · split <;> simp
 
-
 theorem causeOf_congr (s s' : State E) (h1 : s'.base = s.base) (h2 : s'.ess = s.ess)
-    (h3 : s'.noticed = s.noticed) (h4 : s'.fullyHandled = s.fullyHandled) : causeOf s' = causeOf s := by
+    (h3 : s'.noticed = s.noticed) (h4 : s'.fullyHandled = s.fullyHandled)
+    (h5 : s'.marked = s.marked) (h6 : s'.blocked = s.blocked) : causeOf s' = causeOf s := by
   unfold causeOf
-  rw [h1, h2, h3, h4]
+  rw [h1, h2, h3, h4, h5, h6]
 
-theorem bound_of_open (env : Env) (s s' : State E) (hc : causeOf s' = causeOf s) (hp' : s'.pending = true)
+theorem hbound_of_open (env : Env) (s s' : State E) (hc : causeOf s' = causeOf s) (hp' : s'.pending = true)
     (hpm : env.prematch = true) (hh : isHandler s = true) :
-    bound env s' = 2 * Uv (env.sel (causeOf s)) s'.P + Av (env.sel (causeOf s)) s'.P s'.now
+    hbound env s' = 2 * Uv (env.sel (causeOf s)) s'.P + Av (env.sel (causeOf s)) s'.P s'.now
       + (if extras (cfgOf env s) s'.P s'.now then 1 else 0) + 1
       + Cv env.cap (env.sel (causeOf s)) s'.P s'.now := by
   have hh' : isHandler s' = true := by unfold isHandler; rw [hc]; exact hh
   have hcfg : cfgOf env s' = cfgOf env s := by unfold cfgOf; rw [hc]
-  unfold bound
+  unfold hbound core
+  rw [extrasOf_eq]
   simp only [hp', hpm, hh', hc, hcfg, Bool.not_true, Bool.false_eq_true, if_false]
 
-theorem bound_not_pending (env : Env) (s' : State E) (h : s'.pending = false) : bound env s' = 0 := by
-  unfold bound; simp [h]
+theorem hbound_not_pending (env : Env) (s' : State E) (h : s'.pending = false) : hbound env s' = 0 := by
+  unfold hbound; simp [h]
+
+theorem closed_delays_nil (cfg : Cfg) (P : Store) (now now1 : Tick) (exec : Id → Nat → Outcome)
+    (hc : (cycle cfg P now now1 exec).closed = true) : (cycle cfg P now now1 exec).delays = [] := by
+  by_cases hr : handlerReasons.contains cfg.reason = true
+  · cases he : cfg.selected.isEmpty
+    · rw [cycle_main cfg P now now1 exec hr he] at hc ⊢
+      simp only at hc ⊢
+      unfold done at hc
+      rw [List.all_eq_true] at hc
+      unfold delays
+      rw [List.filterMap_eq_nil_iff]
+      intro i hi
+      have hk : i ∈ known cfg := List.mem_eraseDups.1 hi
+      have := hc i hk
+      cases hst : postState cfg P now now1 exec i with
+      | none => rfl
+      | some h =>
+        simp only [hst, Bool.or_eq_true, Bool.not_eq_true'] at this
+        rcases this with h1 | h1 <;> simp [h1]
+    · rw [cycle_no_handlers cfg P now now1 exec hr he]
+  · have hr' : handlerReasons.contains cfg.reason = false := by simpa using hr
+    rw [cycle_not_handler_reason cfg P now now1 exec hr']
 
 theorem nat_slack_lt (a b c : Nat) (hc : 0 < c) (hca : c ≤ a) (hb : b ≤ a - c) : b / c < a / c := by
   have h1 : a / c = (a - c) / c + 1 := Nat.div_eq_sub_div hc hca
@@ -237,45 +267,68 @@ theorem int_sleep_le (now d cap lat : Int) (hd : 0 ≤ d) (hcap : 0 < cap) (hlat
     now ≤ now + (if d > cap then cap else d) + lat := by
   split <;> omega
 
-/-- Every turn of the loop that consumes an event strictly decreases the bound. -/
-theorem step_decreases (env : Env) (wf : WF env) (hfin : AllFinal env) (s : State E)
-    (hu : UniformOn env.owned s.P) (hp : s.pending = true) :
-    bound env (loopStep env s) < bound env s := by
-  by_cases hpm : env.prematch = true
-  rotate_left
-  · have hpm' : env.prematch = false := by simpa using hpm
-    have : loopStep env s = { s with pending := false } := by
-      unfold loopStep; simp [hp, hpm']
-    rw [this]
-    unfold bound
-    simp [hp, hpm']
+/-- A turn that runs the handling pass (and does not release the object) strictly decreases the
+    handling bound. `hcm`: a closing pass on a marked object is a release turn, not this one. -/
+theorem handle_decreases (env : Env) (wf : WF env) (hfin : AllFinal env) (s : State E)
+    (hu : UniformOn env.owned s.P) (hp : s.pending = true) (hpm : env.prematch = true)
+    (hcm : (pass env s).closed = true → s.marked = false) :
+    hbound env (handleTurn env s) < hbound env s := by
   by_cases hh : isHandler s = true
   rotate_left
-  · -- no handler reason (no-op): nothing is written, nothing is pending afterwards
+  · -- an informational cause: leftover records are purged (no-op only), then nothing is pending
     have hh' : isHandler s = false := by simpa using hh
-    have hpass : pass env s = { invoked := [], P' := s.P, closed := false, delays := [] } :=
-      cycle_not_handler_reason (cfgOf env s) s.P s.now s.now env.exec hh'
-    have hnc : changedOf env s = false := by
-      unfold changedOf
-      rw [hpass]
-      simp
-    have hb : bound env s = 1 := by unfold bound; simp [hp, hpm, hh']
-    rcases loopStep_cases env s hp hpm with ⟨h, _⟩ | ⟨d, _, hm, _⟩ | ⟨_, _, h⟩
-    · rw [hnc] at h; cases h
-    · rw [hpass] at hm; simp [minDelay] at hm
-    · rw [h, hb, bound_not_pending _ _ rfl]; omega
+    have hr' : handlerReasons.contains (cfgOf env s).reason = false := hh'
+    have hinv := cycle_not_handler_reason_invoked (cfgOf env s) s.P s.now s.now env.exec hr'
+    have hcl : (pass env s).closed = false := hinv.2
+    have hdl : (pass env s).delays = [] := by
+      unfold pass; rw [cycle_not_handler_reason _ _ _ _ _ hr']
+    have hb : hbound env s = if changedOf env s then 2 else 1 := by
+      unfold hbound core; simp [hp, hpm, hh']
+    rcases handleTurn_cases env s with ⟨hch, h⟩ | ⟨d, _, hm, _⟩ | ⟨hch, _, h⟩
+    · -- the purge PATCH; its echo finds nothing to purge
+      rw [h, hb, hch]
+      have hcz : causeOf (nextState env s (s.now + env.lat) true (s.writes + 1)) = causeOf s :=
+        causeOf_congr s _ (by simp [nextState, hcl]) rfl rfl (by simp [nextState, hcl]) rfl rfl
+      have hh2 : isHandler (nextState env s (s.now + env.lat) true (s.writes + 1)) = false := by
+        unfold isHandler; rw [hcz]; exact hh'
+      have hcfg : cfgOf env (nextState env s (s.now + env.lat) true (s.writes + 1)) = cfgOf env s := by
+        unfold cfgOf; rw [hcz]
+      have hnc2 : changedOf env (nextState env s (s.now + env.lat) true (s.writes + 1)) = false := by
+        have hid : ∀ j, (pass env (nextState env s (s.now + env.lat) true (s.writes + 1))).P' j
+            = (nextState env s (s.now + env.lat) true (s.writes + 1)).P j := by
+          intro j
+          unfold pass
+          rw [hcfg]
+          exact info_pass_twice hr' j
+        have hc2 : (pass env (nextState env s (s.now + env.lat) true (s.writes + 1))).closed = false := by
+          unfold pass; rw [hcfg]
+          exact (cycle_not_handler_reason_invoked (cfgOf env s) _ _ _ env.exec hr').2
+        unfold changedOf
+        simp [hid, hc2]
+      have : hbound env (nextState env s (s.now + env.lat) true (s.writes + 1)) = 1 := by
+        unfold hbound core
+        rw [hh2, hnc2]
+        simp [nextState, hpm]
+      rw [this]; decide
+    · rw [hdl] at hm; simp [minDelay] at hm
+    · rw [h, hb, hbound_not_pending _ _ rfl, hch]; decide
   -- a handler reason
   have hsub : ∀ i ∈ (cfgOf env s).selected, i ∈ (cfgOf env s).owned := fun i hi => wf.sub _ i hi
   have hr : handlerReasons.contains (cfgOf env s).reason = true := hh
-  have hb : bound env s = 2 * Uv (env.sel (causeOf s)) s.P + Av (env.sel (causeOf s)) s.P s.now
+  have hb : hbound env s = 2 * Uv (env.sel (causeOf s)) s.P + Av (env.sel (causeOf s)) s.P s.now
       + (if extras (cfgOf env s) s.P s.now then 1 else 0) + 1 + Cv env.cap (env.sel (causeOf s)) s.P s.now :=
-    bound_of_open env s s rfl hp hpm hh
+    hbound_of_open env s s rfl hp hpm hh
   have hpos := two_U_add_A_pos (env.sel (causeOf s)) s.P s.now
   by_cases hc : (pass env s).closed = true
   · -- the closing pass: afterwards at most the echo of its PATCH is processed
-    have h1 : bound env (loopStep env s) ≤ 1 := by
-      rcases loopStep_cases env s hp hpm with ⟨_, h⟩ | ⟨d, _, _, h⟩ | ⟨_, _, h⟩ <;> rw [h] <;>
-        apply bound_le_one_of_closed <;> simp [nextState, hc]
+    have hmk := hcm hc
+    have hnone : ∀ i ∈ env.owned, (pass env s).P' i = none := by
+      cases he : (cfgOf env s).selected.isEmpty
+      · exact closed_purges (cfgOf env s) s.P s.now s.now env.exec hr he hc
+      · exact (closed_purges_skip (cfgOf env s) s.P s.now s.now env.exec hr he).2
+    have h1 : hbound env (handleTurn env s) ≤ 1 := by
+      rcases handleTurn_cases env s with ⟨_, h⟩ | ⟨d, _, _, h⟩ | ⟨_, _, h⟩ <;> rw [h] <;>
+        apply hbound_le_one_of_closed <;> first | exact hnone | simp [nextState, hc, hmk]
     omega
   -- an open pass
   have hc' : (pass env s).closed = false := by simpa using hc
@@ -297,15 +350,15 @@ theorem step_decreases (env : Env) (wf : WF env) (hfin : AllFinal env) (s : Stat
   have hfh : (s.fullyHandled || (pass env s).closed) = s.fullyHandled := by simp [hc']
   -- bound of the next state, whenever an event is pending there
   have key : ∀ (now' : Tick) (w : Nat), s.now ≤ now' →
-      bound env (nextState env s now' true w)
+      hbound env (nextState env s now' true w)
         = 2 * Uv (env.sel (causeOf s)) (pass env s).P' + Av (env.sel (causeOf s)) (pass env s).P' now' + 0 + 1
           + Cv env.cap (env.sel (causeOf s)) (pass env s).P' now' ∧
         Cv env.cap (env.sel (causeOf s)) (pass env s).P' now' ≤ Cv env.cap (env.sel (causeOf s)) s.P s.now := by
     intro now' w hle
     constructor
     · have hcz : causeOf (nextState env s now' true w) = causeOf s :=
-        causeOf_congr s _ hbase rfl rfl hfh
-      rw [bound_of_open env s _ hcz rfl hpm hh]
+        causeOf_congr s _ hbase rfl rfl hfh rfl rfl
+      rw [hbound_of_open env s _ hcz rfl hpm hh]
       simp only [nextState, hX now', Bool.false_eq_true, if_false]
     · exact open_C_le (cfgOf env s) s.P s.now env.exec hsub hu hr hne hopen hfin env.cap now' hle
   have hAle : ∀ now', Av (env.sel (causeOf s)) (pass env s).P' now' ≤ 1 := fun _ => Av_le_one _ _ _
@@ -315,7 +368,7 @@ theorem step_decreases (env : Env) (wf : WF env) (hfin : AllFinal env) (s : Stat
     obtain ⟨i, hi, ha⟩ := haw
     have hULt : Uv (env.sel (causeOf s)) (pass env s).P' < Uv (env.sel (causeOf s)) s.P :=
       open_U_lt (cfgOf env s) s.P s.now env.exec hsub hu hr hne hopen hfin i hi ha
-    rcases loopStep_cases env s hp hpm with ⟨_, h⟩ | ⟨d, _, hm, h⟩ | ⟨_, _, h⟩
+    rcases handleTurn_cases env s with ⟨_, h⟩ | ⟨d, _, hm, h⟩ | ⟨_, _, h⟩
     · rw [h]
       have hle : s.now ≤ s.now + env.lat := int_le_add s.now env.lat wf.lat
       obtain ⟨k1, k2⟩ := key _ (s.writes + 1) hle
@@ -331,7 +384,7 @@ theorem step_decreases (env : Env) (wf : WF env) (hfin : AllFinal env) (s : Stat
       obtain ⟨k1, k2⟩ := key _ (s.writes + 1) hle
       have := hAle (s.now + (if d > env.cap then env.cap else d) + env.lat)
       rw [k1, hb]; omega
-    · rw [h, hb, bound_not_pending _ _ rfl]; omega
+    · rw [h, hb, hbound_not_pending _ _ rfl]; omega
   have hna : ∀ i ∈ (cfgOf env s).selected, awakeP s.P s.now i = false := by
     intro i hi
     cases hv : awakeP s.P s.now i
@@ -340,7 +393,7 @@ theorem step_decreases (env : Env) (wf : WF env) (hfin : AllFinal env) (s : Stat
   have hA : Av (env.sel (causeOf s)) s.P s.now = 1 := by simp [Av, haw]
   by_cases hex : extras (cfgOf env s) s.P s.now = true
   · -- nobody is due, superseded records are re-purposed
-    rcases loopStep_cases env s hp hpm with ⟨_, h⟩ | ⟨d, _, hm, h⟩ | ⟨_, _, h⟩
+    rcases handleTurn_cases env s with ⟨_, h⟩ | ⟨d, _, hm, h⟩ | ⟨_, _, h⟩
     · rw [h]
       have hle : s.now ≤ s.now + env.lat := int_le_add s.now env.lat wf.lat
       obtain ⟨k1, k2⟩ := key _ (s.writes + 1) hle
@@ -356,7 +409,7 @@ theorem step_decreases (env : Env) (wf : WF env) (hfin : AllFinal env) (s : Stat
       obtain ⟨k1, k2⟩ := key _ (s.writes + 1) hle
       have := hAle (s.now + (if d > env.cap then env.cap else d) + env.lat)
       rw [k1, hb, hA]; simp only [hex, if_true]; omega
-    · rw [h, hb, bound_not_pending _ _ rfl]; omega
+    · rw [h, hb, hbound_not_pending _ _ rfl]; omega
   -- nobody is due, nothing to re-purpose: the pass leaves the object alone; sleep, then touch
   have hex' : extras (cfgOf env s) s.P s.now = false := by simpa using hex
   have hid : ∀ j, (pass env s).P' j = s.P j :=
@@ -365,7 +418,7 @@ theorem step_decreases (env : Env) (wf : WF env) (hfin : AllFinal env) (s : Stat
     unfold changedOf
     rw [hbase]
     simp [hid]
-  rcases loopStep_cases env s hp hpm with ⟨h, _⟩ | ⟨d, _, hm, h⟩ | ⟨_, _, h⟩
+  rcases handleTurn_cases env s with ⟨h, _⟩ | ⟨d, _, hm, h⟩ | ⟨_, _, h⟩
   · rw [hnc] at h; cases h
   · have hmem := minDelay_mem _ _ hm
     obtain ⟨i, hi, r, dd, hP, hrf, hrd, hlt, hdeq⟩ :=
@@ -410,6 +463,6 @@ theorem step_decreases (env : Env) (wf : WF env) (hfin : AllFinal env) (s : Stat
       rw [k1, hb, hA, hAw]
       simp only [hex', Bool.false_eq_true, if_false]
       omega
-  · rw [h, hb, bound_not_pending _ _ rfl]; omega
+  · rw [h, hb, hbound_not_pending _ _ rfl]; omega
 
 end Kopf.C03
